@@ -7,7 +7,6 @@ IDX = Seq(Tup(ANY, Tup(BYTES), BYTES))   # entries of the pack-names index: (ind
 
 N0 = ufunc("n0", NODE)               # an arbitrary node
 M0 = ufunc("m0", STR)                # an arbitrary pack name
-DiskIdx = ufunc("DiskIdx", IDX)      # what pack-names holds on disk right now
 Dec = ufunc("Dec", BYTES, STR)       # ascii decode / encode (assumed inverse on pack names)
 Enc = ufunc("Enc", STR, BYTES)
 
@@ -15,9 +14,10 @@ PACKEXT = lift(".pack")
 NoneIsN0 = fold_all("NoneIsN0", IDX, lambda e: NODE.mk(Dec(e[1][0]), e[2]) != N0())
 
 RPC = cls("RepositoryPackCollection", fields=dict(_names=MapS(STR, ANY), _packs_at_load=NODES))
-ghost(names_locked=BOOL, disk_names=NODES, built=NODES, written=BOOL, obs_deleted=SetS(STR))
+# disk_idx: what pack-names holds before our own write. Other processes may rewrite it at any time until we hold the names lock.
+ghost(names_locked=BOOL, disk_idx=IDX, disk_names=NODES, built=NODES, written=BOOL, obs_deleted=SetS(STR))
 
-assumed("self._iter_disk_pack_index", pure=True, returns=lambda c: DiskIdx(), raises={"Exception": None},
+assumed("self._iter_disk_pack_index", pure=True, returns=lambda c: c.g.disk_idx, raises={"Exception": None},
         note="reads the pack-names index from disk")
 assumed("key[0].decode", pure=True, returns=lambda c: Dec(c.key[0]), raises={"UnicodeDecodeError": None})
 
@@ -25,7 +25,7 @@ P = "breezy/bzr/pack_repo.py::RepositoryPackCollection."
 
 
 def disk_set_is_image(c, D):
-    return In(N0(), D) == Not(NoneIsN0(DiskIdx()))
+    return In(N0(), D) == Not(NoneIsN0(c.g.disk_idx))
 
 
 def merge_shape(r, L):
@@ -62,8 +62,11 @@ target(P + "_diff_pack_names", modifies=[],
        canary=lambda c: c.result[0] == c.result[3])
 
 # ---- _save_pack_names: writes exactly the merge, under the names lock, and always unlocks
-assumed("self.lock_names", result=NONE, modifies=["g.names_locked"],
-        requires=lambda c: Not(c.g.names_locked), ensures=lambda c: c.g.names_locked)
+assumed("self.lock_names", result=NONE, modifies=["g.names_locked", "g.disk_idx"],
+        requires=lambda c: Not(c.g.names_locked), ensures=lambda c: c.g.names_locked,
+        raises={"Exception": "unchanged"},
+        note="RELY: until the names lock is ours other processes may rewrite pack-names (the on-disk index is arbitrary afterwards); "
+             "while we hold it nobody else writes")
 assumed("self._unlock_names", result=NONE, modifies=["g.names_locked"], no_raise=True,
         requires=lambda c: c.g.names_locked, ensures=lambda c: Not(c.g.names_locked),
         note="releasing the names lock (LockableFiles.unlock under only_raises) does not propagate errors")
@@ -106,7 +109,7 @@ target(P + "_save_pack_names",
        loops={1: loop(r"for name, value in disk_nodes", done="done", inv=lambda c: And(c.g.names_locked, Not(c.g.written),
                                                                                       c.g.built == c.done, c.g.disk_names == c.old.g.disk_names,
                                                                                       c.self._packs_at_load == c.old.self._packs_at_load))},
-       modifies=["g.names_locked", "g.disk_names", "g.built", "g.written", "g.obs_deleted", "self._packs_at_load", "self._names"],
+       modifies=["g.names_locked", "g.disk_idx", "g.disk_names", "g.built", "g.written", "g.obs_deleted", "self._packs_at_load", "self._names"],
        ensures={"lock_released": unlocked_again,
                 "writes_the_merge_once": lambda c: And(c.calls("self.transport.put_file") == 1, c.g.written,
                                                        c.g.disk_names == c.self._packs_at_load),
